@@ -37,6 +37,22 @@ POOL = 8
 
 
 INVALID = ('invalid-call',)
+ARGPOOL = [[1, 2], [], {'k': 1}]      # initial content of the caller's long-lived argument objects
+
+
+class _Ref:
+    def __init__(self, k):
+        self.k = k
+
+
+def _enc(v):
+    return {'ref': v.k} if isinstance(v, _Ref) else enc(v)
+
+
+def _dec(v, pool):
+    if isinstance(v, dict) and 'ref' in v:
+        return pool[v['ref'] % len(pool)]
+    return dec(v)
 
 
 class SimFError(Exception):
@@ -76,7 +92,7 @@ def generate(st):
         decs = sorted(sw.sample(decs, sw.randint(2, len(decs))))
     cfg = {'funcs': funcs, 'mode': 'retry' if retry else 'normal', 'faulty': faulty, 'decs': decs,
            'n_ops': sw.choice([6, 10, 16, 24, 36] + ([60, 100] if getattr(st, 'deep', False) else [])), 'p13': sw.choice([0.0, 0.05, 0.15]) if faulty else 0.0,
-           'containers': sw.random() < 0.5}
+           'containers': sw.random() < 0.5, 'argpool': sw.random() < 0.4}
     # memo-stress configuration: few decorators around a cache, a small argument alphabet so that keys repeat, f raising
     # often, and every call replayed on the other wrappers of the same function (memo dicts are inherited on re-wrapping)
     stress = (not retry) and faulty and sw.random() < 0.35
@@ -91,6 +107,8 @@ def generate(st):
     chains = []       # generator-side model of the pool: (fid, [layer types])
 
     def value(first=False):
+        if not first and cfg['containers'] and cfg.get('argpool') and g.random() < 0.25:
+            return _Ref(g.randrange(3))          # one of the caller's own long-lived containers (edited between calls)
         if not first and cfg['containers'] and g.random() < 0.3:
             return g.choice(CONTAINERS)
         if g.random() < cfg['p13']:
@@ -140,7 +158,7 @@ def generate(st):
         if (s['varkw'] or 'kws' in chain_types) and g.random() < 0.4:
             for nm in g.sample(['zz', 'yy', 'k9'], g.randint(1, 2)):
                 extra.append([nm, value()])
-        return {'pos': [enc(v) for v in pos], 'kw': [[k, enc(v)] for k, v in kw], 'extra': [[k, enc(v)] for k, v in extra]}
+        return {'pos': [_enc(v) for v in pos], 'kw': [[k, _enc(v)] for k, v in kw], 'extra': [[k, _enc(v)] for k, v in extra]}
 
     for _ in range(cfg['n_ops']):
         r = g.random()
@@ -188,6 +206,8 @@ def generate(st):
                         c3 = _copy.deepcopy(c)
                         c3['obj'] = j
                         ops.append(c3)
+        elif r < 0.83 and cfg.get('argpool') and cfg['containers']:
+            ops.append({'op': 'edit_arg', 'k': g.randrange(3), 'v': g.choice([1, 2, 5, 's'])})
         elif r < 0.86:
             cands = [i for i, (fid, types) in enumerate(chains) if types and types[0] == 'cache']
             if cands:
@@ -330,6 +350,7 @@ def execute(trace, ctx=None):
     for fid, s in enumerate(cfg['funcs']):
         f, twin = _make_funcs(fid, s, ledger)
         funcs.append((f, twin, s))
+    argpool = _copy.deepcopy(ARGPOOL)
     pool = []         # dicts: real, fid, chain (model: list of layer dicts outer -> inner), seen {key: first result}
     by_base = {}      # (fid, key at the cache layer) -> list of result objects produced by evaluations
     retry = cfg.get('mode') == 'retry'
@@ -583,10 +604,12 @@ def execute(trace, ctx=None):
                 if not (0 <= op['obj'] < len(pool)):
                     continue
                 o = pool[op['obj']]
-                args = [dec(v) for v in op['pos']]
-                kwargs = {k2: dec(v) for k2, v in op['kw']}
+                args = [_dec(v, argpool) for v in op['pos']]
+                kwargs = {k2: _dec(v, argpool) for k2, v in op['kw']}
                 for k2, v in op.get('extra', []):
-                    kwargs[k2] = dec(v)
+                    kwargs[k2] = _dec(v, argpool)
+                if any(isinstance(v, dict) and 'ref' in v for v in list(op['pos']) + [v for _, v in op['kw']] + [v for _, v in op.get('extra', [])]):
+                    res.probe('long-lived-argument-object')
                 fid = o['fid']
                 f, twin, s = funcs[fid]
                 if kind == 'call':
@@ -613,6 +636,14 @@ def execute(trace, ctx=None):
                         r = do_call(o, pos2, kw2, k, how=lambda: call_with_callargs(o['real'], got))
                         if r == 'ok':
                             res.probe('call_with_callargs-checked')
+            elif kind == 'edit_arg':
+                # the caller edits one of its own containers between calls: a later call with it is a different combination
+                a = argpool[op['k'] % len(argpool)]
+                if isinstance(a, list):
+                    a.append(op['v'])
+                else:
+                    a['e%d' % len(a)] = op['v']
+                res.probe('argument-object-edited-between-calls')
             elif kind == 'clear':
                 if not (0 <= op['obj'] < len(pool)):
                     continue
@@ -761,7 +792,7 @@ def signature(trace, violation):
 
 PROBES = ['cache-hit', 'cache-hit-after-rewrap', 'multi-keyword-call', 'unhashable-argument', 'fallback-taken', 'retry-then-success',
           'same-decorator-through-chain', 'same-decorator-directly', 'clear_cache', 'argspec-checked', 'getcallargs-checked',
-          'call_with_callargs-checked', 'pd2np-without-first-argument', 'caller-edits-mutable-fallback', 'falsy-result-cached']
+          'call_with_callargs-checked', 'pd2np-without-first-argument', 'caller-edits-mutable-fallback', 'falsy-result-cached', 'long-lived-argument-object', 'argument-object-edited-between-calls']
 TIERS = {'quick': {'runs': 30000, 'wallcap': 50}, 'thorough': {'runs': 1500000, 'wallcap': 800}}
 COMPONENTS = {
     'real': ['pyg_base._decorators wrapper / try_value / try_back / kwargs_support', 'pyg_base._cache cache_func', 'pyg_base._loop loops (non-container input) / pd2np (non-pandas input)',
